@@ -238,6 +238,17 @@ func (g *goSide) apply(f []string) (resp string) {
 		st.Finalise(f[1] == "1")
 	case "root":
 		st.IntermediateRoot(f[1] == "1")
+	case "reopen":
+		// Commit the live state and continue on a NEW StateDB opened at the committed roots (same database)
+		root, valRoot, stakingRoot, err := st.Commit(true)
+		if err != nil {
+			panic(err)
+		}
+		ns, err := state.New(root, valRoot, stakingRoot, g.db)
+		if err != nil {
+			panic(err)
+		}
+		g.st = ns
 	default:
 		return "crash: unknown op " + f[0]
 	}
